@@ -45,12 +45,22 @@ let tag pk w = int_of_nat (pc_tag (pc_of pk w))
 
 (* a worker that fetched a job and goes on without having locked the root: legitimate only in the
    d/m variants when the pool has a single thread (the code skips every lock then) *)
+let vheld : (int, nat) Hashtbl.t = Hashtbl.create 8   (* worker -> root it holds virtually *)
+(* pool of one thread, d/m variants: the code skips roots_mutex (and the worker's own Aberth mutex); the
+   driver brackets the iteration with a virtual LLockR ... LUnlockR so that the model still sees it *)
+let virtual_open pk w =
+  if tag pk w = 5 && pk.pooln <= 1 then
+    (match pc_root (pc_of pk w) with
+     | Some i -> pk.virt <- true; feed pk (LLockR (nat_of_int w, i)); Hashtbl.replace vheld w i
+     | None -> ())
+let virtual_close pk w =
+  match Hashtbl.find_opt vheld w with
+  | Some i -> Hashtbl.remove vheld w; if tag pk w = 6 then feed pk (LUnlockR (nat_of_int w, i))
+  | None -> ()
 let virtual_root pk w =
+  virtual_close pk w;
   if tag pk w = 5 then begin
-    if pk.pooln <= 1 then
-      (match pc_root (pc_of pk w) with
-       | Some i -> pk.virt <- true; feed pk (LLockR (nat_of_int w, i)); feed pk (LUnlockR (nat_of_int w, i))
-       | None -> ())
+    if pk.pooln <= 1 then (virtual_open pk w; virtual_close pk w)
     else raise (Reject ("model-reject", "worker fetched a job and did not lock its root although the pool has several threads"))
   end
 
@@ -117,6 +127,7 @@ let process_run hdr (lines : string array) =
                  let ag = Hashtbl.copy h_ag in
                  let again0 = fun i -> (try Hashtbl.find ag (int_of_nat i) with Not_found -> false) in
                  let nz0 = Hashtbl.fold (fun _ b acc -> if b then acc else acc + 1) ag 0 in
+                 Hashtbl.reset vheld;
                  cur := Some { st = w_init prm again0 (nat_of_int nz0); prm; pn = !h_n; pooln = !h_pooln;
                                wmap = Hashtbl.create 16; next_w = 0; fetches = 0; labels = 0; virt = false };
                  incr packets
@@ -179,9 +190,9 @@ let process_run hdr (lines : string array) =
                      | "queue", "unlock" -> pk.fetches <- pk.fetches + 1; Some (LUnlockQ wn)
                      | "root", "lock" -> Some (LLockR (wn, nat_of_int ix))
                      | "root", "unlock" -> Some (LUnlockR (wn, nat_of_int ix))
-                     | "aberth", "lock" -> Some (LIn (wn, ALock (nat_of_int ix)))
+                     | "aberth", "lock" -> virtual_open pk w; Some (LIn (wn, ALock (nat_of_int ix)))
                      | "aberth", "unlock" -> Some (LIn (wn, AUnlock (nat_of_int ix)))
-                     | "gaberth", "lock" -> Some (LIn (wn, GLock))
+                     | "gaberth", "lock" -> virtual_open pk w; Some (LIn (wn, GLock))
                      | "gaberth", "unlock" -> Some (LIn (wn, GUnlock))
                      | "gs", "lock" -> Some (LIn (wn, SLock))
                      | "gs", "unlock" -> Some (LIn (wn, SUnlock))
